@@ -694,6 +694,8 @@ class Interp:
                 return v
             if isinstance(e.op, ast.Not):
                 return not self.truth(v, e)
+            if isinstance(e.op, ast.Invert) and hasattr(v, "skv_invert"):
+                return v.skv_invert()
             raise Unsupported("unary operator", e)
         if isinstance(e, ast.Tuple):
             return tuple(self._elts(e.elts, env, module))
